@@ -21,7 +21,7 @@
 use crate::{
     addresses::PublicAddresses,
     error::{Error, ImmediateDialError, SubstreamError},
-    protocol::{connection::ConnectionHandle, InnerTransportEvent, TransportEvent},
+    protocol::{connection::ConnectionHandle, Direction, InnerTransportEvent, TransportEvent},
     transport::{manager::TransportManagerHandle, Endpoint},
     types::{protocol::ProtocolName, ConnectionId, SubstreamId},
     PeerId, DEFAULT_CHANNEL_SIZE,
@@ -32,7 +32,7 @@ use multiaddr::{Multiaddr, Protocol};
 use tokio::sync::mpsc::{channel, Receiver, Sender};
 
 use std::{
-    collections::{HashMap, HashSet},
+    collections::{HashMap, HashSet, VecDeque},
     fmt::Debug,
     pin::Pin,
     sync::{
@@ -306,6 +306,12 @@ pub struct TransportService {
 
     /// Whether this protocol susbstreams should keep connection alive.
     substream_keep_alive: SubstreamKeepAlive,
+
+    /// Outbound substreams which are being opened and the connections that are opening them.
+    pending_substreams: HashMap<SubstreamId, (PeerId, ConnectionId)>,
+
+    /// Events which are waiting to be reported to the protocol.
+    pending_events: VecDeque<TransportEvent>,
 }
 
 impl TransportService {
@@ -334,6 +340,8 @@ impl TransportService {
                 connections: HashMap::new(),
                 keep_alive_tracker,
                 substream_keep_alive,
+                pending_substreams: HashMap::new(),
+                pending_events: VecDeque::new(),
             },
             tx,
         )
@@ -433,6 +441,38 @@ impl TransportService {
 
         self.keep_alive_tracker.on_connection_closed(peer, connection_id);
 
+        // outbound substreams which were being opened over the closed connection will never open
+        let mut failed_substreams = Vec::new();
+        self.pending_substreams.retain(|substream_id, (pending_peer, pending_connection)| {
+            let failed = pending_peer == &peer && pending_connection == &connection_id;
+            if failed {
+                failed_substreams.push(*substream_id);
+            }
+            !failed
+        });
+
+        let event = self.handle_connection_closed(peer, connection_id);
+
+        // if there is still a connection open to the peer, the protocol is not notified of the
+        // closed connection and the substream open failures must be reported to it separately
+        if event.is_none() && self.connections.contains_key(&peer) {
+            self.pending_events.extend(failed_substreams.into_iter().map(|substream| {
+                TransportEvent::SubstreamOpenFailure {
+                    substream,
+                    error: SubstreamError::ConnectionClosed,
+                }
+            }));
+        }
+
+        event
+    }
+
+    /// Update connection state of `peer` after one of its connections was closed.
+    fn handle_connection_closed(
+        &mut self,
+        peer: PeerId,
+        connection_id: ConnectionId,
+    ) -> Option<TransportEvent> {
         let Some(context) = self.connections.get_mut(&peer) else {
             tracing::warn!(
                 target: LOG_TARGET,
@@ -590,15 +630,16 @@ impl TransportService {
             connection.try_upgrade();
         }
 
-        connection
-            .open_substream(
-                self.protocol.clone(),
-                self.fallback_names.clone(),
-                substream_id,
-                permit,
-                self.substream_keep_alive,
-            )
-            .map(|_| substream_id)
+        connection.open_substream(
+            self.protocol.clone(),
+            self.fallback_names.clone(),
+            substream_id,
+            permit,
+            self.substream_keep_alive,
+        )?;
+        self.pending_substreams.insert(substream_id, (peer, connection_id));
+
+        Ok(substream_id)
     }
 
     /// Forcibly close the connection, even if other protocols have substreams open over it.
@@ -642,7 +683,15 @@ impl Stream for TransportService {
         let protocol_name = self.protocol.clone();
         let keep_alive_timeout = self.keep_alive_tracker.keep_alive_timeout;
 
-        while let Poll::Ready(event) = self.rx.poll_recv(cx) {
+        loop {
+            if let Some(event) = self.pending_events.pop_front() {
+                return Poll::Ready(Some(event));
+            }
+
+            let Poll::Ready(event) = self.rx.poll_recv(cx) else {
+                break;
+            };
+
             match event {
                 None => {
                     tracing::warn!(
@@ -691,6 +740,10 @@ impl Stream for TransportService {
                     // This is for the reader, not for compiler.
                     drop(opening_permit);
 
+                    if let Direction::Outbound(substream_id) = &direction {
+                        self.pending_substreams.remove(substream_id);
+                    }
+
                     return Poll::Ready(Some(TransportEvent::SubstreamOpened {
                         peer,
                         protocol,
@@ -699,7 +752,13 @@ impl Stream for TransportService {
                         substream,
                     }));
                 }
-                Some(event) => return Poll::Ready(Some(event.into())),
+                Some(event) => {
+                    if let InnerTransportEvent::SubstreamOpenFailure { substream, .. } = &event {
+                        self.pending_substreams.remove(substream);
+                    }
+
+                    return Poll::Ready(Some(event.into()));
+                }
             }
         }
 
